@@ -211,10 +211,11 @@ FAMILIES = {
 
 
 @st.composite
-def struct_st(draw, names=None, max_wann=12):
-    """JSON description of a structure: name, projection set, soc / magnetic variant, free parameters"""
+def struct_st(draw, names=None, max_wann=12, vfilter=None):
+    """JSON description of a structure: name, projection set, soc / magnetic variant, free parameters.
+    vfilter(name, proj index, soc, mag tag) -> bool restricts the variants (every name must keep at least one)"""
     name = draw(st.sampled_from(list(names or NAMES)))
-    allv = [v for v in variants(name) if nwann(name, v[0], v[1]) <= max_wann]
+    allv = [v for v in variants(name) if nwann(name, v[0], v[1]) <= max_wann and (vfilter is None or vfilter(name, *v))]
     ip, soc, mag = draw(st.sampled_from(allv))
     return dict(name=name, proj=ip, soc=soc, mag=mag,
                 a=draw(fl(1.0, 2.2, 3)), b=draw(fl(2.3, 3.1, 3)), c=draw(fl(3.2, 4.2, 3)),
@@ -259,15 +260,16 @@ def wf_sites(rs):
     return out
 
 
-def build_start(s, rs_seed, R, keys, decay=1.0, disp=0.03, cmode="wf"):
+def build_start(s, rs_seed, R, keys, decay=1.0, disp=0.03, cmode="wf", sites=None):
     """random (non symmetric) start model: hermitian random matrices on the closed R list `R`; centres = atomic
     positions + random displacement of size `disp` (reduced coordinates):
       cmode 'wf'   : an independent displacement for every Wannier function,
       cmode 'site' : one displacement shared by all Wannier functions of one atom and projection string,
       cmode 'exact': no displacement.
+    sites: order of the Wannier functions (default: wf_sites(), the order System_R.symmetrize() documents)
     -> (wbsys.Model, resolved struct)"""
     rs = resolve(s)
-    sites = wf_sites(rs)
+    sites = wf_sites(rs) if sites is None else list(sites)
     nw = len(sites)
     rng = rng_of(rs_seed)
     cen = np.array([rs["positions"][ia] for ia, _, _ in sites], dtype=float)
@@ -305,6 +307,141 @@ def symmetrize(system, rs, **kw):
     """the call under test; -> symmetrizer object returned by the code"""
     return system.symmetrize(proj=list(rs["proj"]), positions=np.array(rs["positions"]), atom_name=list(rs["names"]),
                              soc=rs["soc"], magmom=None if rs["magmom"] is None else np.array(rs["magmom"]), **kw)
+
+
+# ------------------------------------------------------------------------------------------------
+# second route: the caller builds the space group, the projections (site dependent local frames) and the symmetriser
+# and calls System_R.symmetrize2()
+
+FULL_SHELLS = ("s", "p", "d", "f")
+
+
+def multi_site(name, ip):
+    """True if some projection of the set sits on a species with several atoms and is not a plain s orbital"""
+    e = LIB[name]
+    names, _ = e["atoms"](0.2, 0.3)
+    for p in e["proj"][ip]:
+        at, orb = [x.strip() for x in p.split(":")]
+        if names.count(at) > 1 and any(o.strip() != "s" for o in orb.split(";")):
+            return True
+    return False
+
+
+def full_shells_only(name, ip):
+    return all(o.strip() in FULL_SHELLS for p in LIB[name]["proj"][ip] for o in p.split(":")[1].split(";"))
+
+
+def split_orbits(pos, ops, tol=1e-6):
+    """indices of `pos` (reduced) grouped into orbits under the operations ops = [(W, t), ...] (own implementation:
+    image = W p + t, compared modulo lattice vectors); orbits in the order of their first member"""
+    pos = np.asarray(pos, dtype=float)
+    orbit_of = [-1] * len(pos)
+    orbits = []
+    for i in range(len(pos)):
+        if orbit_of[i] >= 0:
+            continue
+        orbit_of[i] = len(orbits)
+        members = [i]
+        for W, t in ops:
+            img = W @ pos[i] + t
+            for j in range(len(pos)):
+                d = img - pos[j]
+                if orbit_of[j] < 0 and np.max(np.abs(d - np.round(d))) < tol:
+                    orbit_of[j] = len(orbits)
+                    members.append(j)
+        orbits.append(sorted(members))
+    return orbits
+
+
+def random_rotation(rng):
+    """proper rotation matrix (rows = orthonormal right-handed frame)"""
+    Q, Rr = np.linalg.qr(rng.normal(size=(3, 3)))
+    Q = Q * np.sign(np.diag(Rr))[None, :]
+    if np.linalg.det(Q) < 0:
+        Q[:, 0] = -Q[:, 0]
+    return Q.T
+
+
+def build_symmetrizer(rs, frames="rotate", rs_seed=0):
+    """space group (irrep, as System_R.symmetrize() asks for it), one Projection per Wyckoff orbit of every projection
+    string with site dependent local frames, and the SymmetrizerSAWF made of them.
+      frames 'rotate': Projection(rotate_basis=True) - the frame of a site is the one of the first site of the orbit rotated
+                       by the operation that generates the site;
+      frames 'orbit' : an explicit basis_list made like that of rotate_basis=True, but the generating operation of every site
+                       (also of the first one: an element of its site-symmetry group) is picked at random among all
+                       operations that map the first site onto it (harness' own W p + t and L^T W L^-T);
+      frames 'list'  : an explicit basis_list of independent random proper rotations, one per site (only meaningful for
+                       full shells, whose span does not depend on the frame);
+      frames 'same'  : rotate_basis=False.
+    -> (symmetrizer, sites, info); sites = order of the Wannier functions the symmetriser expects: projections in the
+    given order, per projection its orbitals (split at ';'), per orbital the sites in the order of Projection.positions,
+    per site the orbitals, spin interlaced.  Entries as in wf_sites(): (atom index, label, spin)"""
+    from irrep.spacegroup import SpaceGroup
+    from wannierberri.symmetry.projections import Projection
+    from wannierberri.symmetry.sawf import SymmetrizerSAWF
+    names = list(rs["names"])
+    pos = np.array(rs["positions"], dtype=float)
+    first = {}
+    for n in names:
+        first.setdefault(n, len(first))
+    spacegroup = SpaceGroup.from_cell(real_lattice=np.array(rs["L"]), positions=pos, typat=[first[n] for n in names],
+                                      magmom=None if rs["magmom"] is None else np.array(rs["magmom"], dtype=float),
+                                      include_TR=True, spinor=bool(rs["soc"]))
+    ops = [(np.array(g.rotation, dtype=float), np.array(g.translation, dtype=float)) for g in spacegroup.symmetries]
+    rng = rng_of(rs_seed)
+    nsp = 2 if rs["soc"] else 1
+    projections, sites = [], []
+    frames_differ = False
+    for p in rs["proj"]:
+        at, orbital = [x.strip() for x in p.split(":")]
+        idx = [i for i, n in enumerate(names) if n == at]
+        for orbit in split_orbits(pos[idx], ops):
+            ia = [idx[j] for j in orbit]
+            kw = dict(position_num=pos[ia], orbital=orbital, spacegroup=spacegroup)
+            if frames == "rotate":
+                proj = Projection(rotate_basis=True, **kw)
+            elif frames == "list":
+                proj = Projection(rotate_basis=False, basis_list=[random_rotation(rng) for _ in ia], **kw)
+            elif frames == "orbit":
+                LT = np.array(rs["L"], dtype=float).T
+                blist = []
+                for a in ia:
+                    cands = []
+                    for W, t in ops:
+                        d = W @ pos[ia[0]] + t - pos[a]
+                        if np.max(np.abs(d - np.round(d))) < 1e-6:
+                            cands.append(W)
+                    Wc = LT @ cands[int(rng.integers(len(cands)))] @ np.linalg.inv(LT)
+                    blist.append(Wc.T)   # rows = images of the Cartesian axes
+                proj = Projection(rotate_basis=False, basis_list=blist, **kw)
+            elif frames == "same":
+                proj = Projection(rotate_basis=False, **kw)
+            else:
+                raise ValueError(frames)
+            projections.append(proj)
+            # order of the sites as the projection stores them (documented attribute `positions`)
+            order = []
+            for q in np.array(proj.positions, dtype=float):
+                d = pos[ia] - q[None, :]
+                hit = np.nonzero(np.max(np.abs(d - np.round(d)), axis=1) < 1e-6)[0]
+                if len(hit) != 1:
+                    raise RuntimeError(f"site {q} of the projection {p} matches {len(hit)} atoms")
+                order.append(ia[int(hit[0])])
+            if sorted(order) != sorted(ia) or (frames in ("list", "orbit") and order != ia):
+                raise RuntimeError(f"projection {p}: sites {order} are not the atoms {ia} handed in")
+            B = np.array(proj.basis_list, dtype=float)
+            frames_differ = frames_differ or bool(np.max(np.abs(B - B[0][None])) > 1e-6)
+            for orb in proj.orbitals:
+                for a in order:
+                    for io in range(norb(orb)):
+                        for isp in range(nsp):
+                            sites.append((a, f"{p}|{orb}#{io}", isp))
+    symmetrizer = SymmetrizerSAWF.from_spacegroup_and_projections(spacegroup=spacegroup, projections=projections)
+    rot_dep = False
+    for ro in getattr(symmetrizer, "rot_orb_list", []):
+        ro = np.asarray(ro)
+        rot_dep = rot_dep or bool(np.max(np.abs(ro - ro[0][None])) > 1e-6)
+    return symmetrizer, sites, dict(frames_differ=frames_differ, rot_orb_site_dependent=rot_dep, nproj=len(projections))
 
 
 def label(s):
